@@ -53,7 +53,7 @@ package client
 //@ site IndexByDate#1 as ix
 //@ site addChainWithRetry#1 as sub
 //@ requires tlc != nil && len(tlc.Clients) == len(tlc.intervals)
-//@ requires forall j int :: 0 <= j && j < len(tlc.Clients) ==> tlc.Clients[j] != nil && tlc.Clients[j].logger != nil && tlc.Clients[j].backoff != nil && tlc.Clients[j].httpClient != nil
+//@ requires forall j int :: 0 <= j && j < len(tlc.Clients) ==> tlc.Clients[j] != nil && tlc.Clients[j].logger != nil && tlc.Clients[j].backoff != nil && tlc.Clients[j].httpClient != nil && verifierOK(tlc.Clients[j].Verifier)
 //@ ensures [empty-chain-refused] len(chain) == 0 ==> result1 != nil && !sub.called
 //@ ensures [unroutable-certificate-refused] ix.called && ix.res1 != nil ==> result1 != nil && !sub.called
 //@ ensures [result-is-the-shards-answer] sub.called ==> result0 == sub.res0 && result1 == sub.res1
@@ -64,7 +64,7 @@ package client
 //@ props C12 C05
 //@ pure
 //@ site VerifySTHSignature#1 as v
-//@ requires c != nil
+//@ requires c != nil && verifierOK(c.Verifier)
 //@ ensures [without-a-key-nothing-can-be-checked] old(c.Verifier) == nil ==> result == nil && !v.called
 //@ ensures [with-a-key-the-verifier-decides] old(c.Verifier) != nil ==> v.called && result == v.res
 //@ at v assert [verifies-the-sth-given] v.sth == sth && v.s == *c.Verifier
@@ -75,7 +75,7 @@ package client
 //@ frame-trusted writes only the leaf it has just built (fresh memory)
 //@ site MerkleTreeLeafFromRawChain#1 as ml
 //@ site VerifySCTSignature#1 as v
-//@ requires c != nil
+//@ requires c != nil && verifierOK(c.Verifier)
 //@ ensures [without-a-key-nothing-can-be-checked] old(c.Verifier) == nil ==> result == nil && !v.called
 //@ ensures [leaf-build-failure-is-an-error] ml.called && ml.res1 != nil ==> result != nil && !v.called
 //@ ensures [with-a-key-the-verifier-decides] old(c.Verifier) != nil && ml.res1 == nil ==> v.called && result == v.res
@@ -87,7 +87,7 @@ package client
 //@ site GetAndParse#1 as gp
 //@ site ToSignedTreeHead#1 as ts
 //@ site VerifySTHSignature#1 as vs
-//@ requires c != nil && c.httpClient != nil
+//@ requires c != nil && c.httpClient != nil && verifierOK(c.Verifier)
 //@ ensures [never-an-unverified-sth] result1 == nil ==> result0 != nil && ts.called && ts.res1 == nil && result0 == ts.res0 && vs.called && vs.res == nil
 //@ ensures [transport-error-passed-on] gp.res2 != nil ==> result1 == gp.res2 && result0 == nil
 //@ ensures [later-errors-carry-status-and-body] (ts.called && ts.res1 != nil) || (vs.called && vs.res != nil) ==> result0 == nil && typeof(result1) == jsonclient.RspError && as(result1, jsonclient.RspError).StatusCode == after(gp, gp.res0.StatusCode) && as(result1, jsonclient.RspError).Body == gp.res1
@@ -102,7 +102,7 @@ package client
 //@ site VerifySCTSignature#1 as vs
 //@ site MarshalPKIXPublicKey#1 as mk
 //@ site sha256.Sum256#1 as kh
-//@ requires c != nil && c.logger != nil && c.backoff != nil && c.httpClient != nil
+//@ requires c != nil && c.logger != nil && c.backoff != nil && c.httpClient != nil && verifierOK(c.Verifier)
 //@ ensures [log-id-is-the-hash-of-the-configured-key] result1 == nil && old(c.Verifier) != nil ==> mk.called && mk.res1 == nil && mk.pub == old(c.Verifier.PubKey) && kh.called && kh.data == mk.res0 && result0.LogID.KeyID == kh.res && len(after(pp, resp.ID)) == 32
 //@ loop 1 invariant len(req.Chain) == rangeindex + 1 && (forall j int :: 0 <= j && j <= rangeindex ==> req.Chain[j] == chain[j].Data)
 //@ ensures [never-an-unverified-sct] result1 == nil ==> result0 != nil && vs.called && vs.res == nil && um.res1 == nil && len(um.res0) == 0 && dec.res1 == nil
@@ -115,14 +115,14 @@ package client
 //@ func (*LogClient).AddChain
 //@ props C12
 //@ site addChainWithRetry#1 as sub
-//@ requires c != nil && c.logger != nil && c.backoff != nil && c.httpClient != nil
+//@ requires c != nil && c.logger != nil && c.backoff != nil && c.httpClient != nil && verifierOK(c.Verifier)
 //@ ensures [result-is-the-verified-submission] result0 == sub.res0 && result1 == sub.res1
 //@ at sub assert [x509-entry-type-on-add-chain] sub.ctype == ct.X509LogEntryType && sub.path == "/ct/v1/add-chain" && sub.chain == chain && sub.c == c
 
 //@ func (*LogClient).AddPreChain
 //@ props C12
 //@ site addChainWithRetry#1 as sub
-//@ requires c != nil && c.logger != nil && c.backoff != nil && c.httpClient != nil
+//@ requires c != nil && c.logger != nil && c.backoff != nil && c.httpClient != nil && verifierOK(c.Verifier)
 //@ ensures [result-is-the-verified-submission] result0 == sub.res0 && result1 == sub.res1
 //@ at sub assert [precert-entry-type-on-add-pre-chain] sub.ctype == ct.PrecertLogEntryType && sub.path == "/ct/v1/add-pre-chain" && sub.chain == chain && sub.c == c
 
@@ -192,14 +192,14 @@ package client
 //@ ensures [client-xor-error] (result0 != nil) != (result1 != nil)
 //@ ensures [error-passed-on] jn.res1 != nil ==> result1 == jn.res1
 //@ ensures [wraps-the-json-client-unchanged] jn.res1 == nil ==> result1 == nil && result0.JSONClient == *jn.res0
-//@ ensures [usable-client] result1 == nil ==> result0.httpClient != nil && result0.logger != nil && result0.backoff != nil
+//@ ensures [usable-client] result1 == nil ==> result0.httpClient != nil && result0.logger != nil && result0.backoff != nil && verifierOK(result0.Verifier)
 //@ at jn assert [same-arguments] jn.uri == uri && jn.hc == hc && jn.opts == opts
 
 //@ func (*TemporalLogClient).AddChain
 //@ props C12 C18
 //@ site addChain#1 as sub
 //@ requires tlc != nil && len(tlc.Clients) == len(tlc.intervals)
-//@ requires forall j int :: 0 <= j && j < len(tlc.Clients) ==> tlc.Clients[j] != nil && tlc.Clients[j].logger != nil && tlc.Clients[j].backoff != nil && tlc.Clients[j].httpClient != nil
+//@ requires forall j int :: 0 <= j && j < len(tlc.Clients) ==> tlc.Clients[j] != nil && tlc.Clients[j].logger != nil && tlc.Clients[j].backoff != nil && tlc.Clients[j].httpClient != nil && verifierOK(tlc.Clients[j].Verifier)
 //@ ensures [result-is-the-routed-submission] result0 == sub.res0 && result1 == sub.res1
 //@ at sub assert [x509-entry-type-on-add-chain] sub.ctype == ct.X509LogEntryType && sub.path == "/ct/v1/add-chain" && sub.chain == chain && sub.tlc == tlc
 
@@ -207,6 +207,6 @@ package client
 //@ props C12 C18
 //@ site addChain#1 as sub
 //@ requires tlc != nil && len(tlc.Clients) == len(tlc.intervals)
-//@ requires forall j int :: 0 <= j && j < len(tlc.Clients) ==> tlc.Clients[j] != nil && tlc.Clients[j].logger != nil && tlc.Clients[j].backoff != nil && tlc.Clients[j].httpClient != nil
+//@ requires forall j int :: 0 <= j && j < len(tlc.Clients) ==> tlc.Clients[j] != nil && tlc.Clients[j].logger != nil && tlc.Clients[j].backoff != nil && tlc.Clients[j].httpClient != nil && verifierOK(tlc.Clients[j].Verifier)
 //@ ensures [result-is-the-routed-submission] result0 == sub.res0 && result1 == sub.res1
 //@ at sub assert [precert-entry-type-on-add-pre-chain] sub.ctype == ct.PrecertLogEntryType && sub.path == "/ct/v1/add-pre-chain" && sub.chain == chain && sub.tlc == tlc
